@@ -278,7 +278,7 @@ def shard_main(shard, nshards, tier):
             if len(ref.children) == 1 and ref.children[0].children:
                 counts['nontrivial'] += 1
             if got != exp:
-                viols.append(('wrong-result|%s' % desc, {'xsl': xsl, 'xml': d.to_xml(), 'doc': d.name, 'expected': json.dumps(exp)[:1500], 'got': json.dumps(got)[:1500], 'output': r[2][:800]}))
+                viols.append(('wrong-result|%s' % desc, {'xsl': xsl, 'xml': d.to_xml(), 'doc': d.name, 'resources': res_args, 'expected': json.dumps(exp)[:1500], 'got': json.dumps(got)[:1500], 'output': r[2][:800]}))
                 break
         if len(samples) < 3 and idx % 997 == shard:
             samples.append('%s on %d documents' % (desc, len(D)))
@@ -291,7 +291,7 @@ def main():
     if rp:
         d = json.load(open(rp))['detail']
         w = vlib.Worker('xdrv')
-        print(w.request('tr', d['xsl'], d['xml']))
+        print(w.request('tr', d['xsl'], d['xml'], *d.get('resources', [])))
         print('expected', d.get('expected'))
         w.close()
         return
